@@ -304,6 +304,24 @@ def check_dg(o):
                 break
     _edge_forms(lambda ee: ms.DirectedGraph.init_from_edges(ee, n), E, n, g, bad, "DirectedGraph: ", False)
     _edge_forms(lambda ee: ms.PointDirectedGraph.init_from_edges(_pts(n), ee), E, n, g, bad, "PointDirectedGraph: ", False)
+    # the tree constructors accept exactly the <<edge set, root>> pairs that are rooted trees - and refuse the others with an error
+    if n >= 2 and "rooted" in o:
+        rooted = set(int(r) for r in o["rooted"])
+        for r in range(n):
+            for label, build in (("Tree", lambda: ms.Tree.init_from_edges(E.copy(), n, r)),
+                                 ("PointTree", lambda: ms.PointTree.init_from_edges(_pts(n), E.copy(), r))):
+                try:
+                    t = build()
+                    ok = True
+                except ValueError:
+                    ok = False
+                except Exception as e:
+                    bad.append(("%s constructor fails with %s instead of accepting / refusing the edge set" % (label, type(e).__name__), {"root": r, "msg": str(e)[:100]}, None))
+                    return bad
+                if ok != (r in rooted):
+                    bad.append(("%s constructor %s" % (label, "refuses a rooted tree" if not ok else "accepts an edge set that is not a tree rooted at the given vertex"),
+                                {"root": r, "edges": o["edges"]}, None))
+                    return bad
     _check_masks(pg, o, True, bad, "PointDirectedGraph: ", "PointDirectedGraph")
     if len(E):
         P = _pts(n)
@@ -387,7 +405,66 @@ def check_tree(o):
     return bad
 
 
-CHECKS = {"ug": check_ug, "dg": check_dg, "tree": check_tree}
+def check_grid(o):
+    """the predefined grid constructors: row-major numbering, spacing, the 4-connected lattice (both directions when directed)"""
+    import menpo.shape as ms
+    from menpo.image import Image
+
+    bad = []
+    h, w, n = o["h"], o["w"], o["n"]
+    und = {tuple(sorted(e)) for e in o["edges"]}
+    nb = _fn(o["nbr"])
+    co = _fn(o["coords"])
+    for spacing, sr, sc in ((None, 1, 1), (2, 2, 2), ((2, 3), 2, 3)):
+        P = np.array([[co[v][0] * sr, co[v][1] * sc] for v in range(n)], dtype=float)
+        for cls, directed in ((ms.PointUndirectedGraph, False), (ms.PointDirectedGraph, True)):
+            label = "%s.init_2d_grid(%r, spacing=%r): " % (cls.__name__, (h, w), spacing)
+            try:
+                g = cls.init_2d_grid((h, w), spacing=spacing)
+                A = np.asarray(g.adjacency_matrix.todense()) != 0
+            except Exception as e:
+                bad.append((label + "raised %s" % type(e).__name__, {"msg": str(e)[:100]}, None))
+                continue
+            if g.points.shape != P.shape or not np.array_equal(g.points, P):
+                bad.append((label + "points are not the row-major grid with the requested spacing", {}, None))
+                continue
+            got = {(int(i), int(j)) for i, j in zip(*np.nonzero(A))}
+            want = {(a, b) for a, b in und} | {(b, a) for a, b in und}
+            if got != want:
+                bad.append((label + "adjacency is not the 4-connected lattice (symmetric: every lattice edge in both directions)",
+                            {"missing": sorted(want - got)[:4], "extra": sorted(got - want)[:4]}, None))
+                continue
+            for v in range(n):
+                if directed:
+                    ok = sorted(int(x) for x in g.children(v)) == sorted(nb[v]) and sorted(int(x) for x in g.parents(v)) == sorted(nb[v])
+                else:
+                    ok = sorted(int(x) for x in g.neighbours(v)) == sorted(nb[v])
+                if not ok or any(bool(g.is_edge(v, u)) != (u in nb[v]) for u in range(n)):
+                    bad.append((label + "neighbours / edge tests disagree with the lattice", {"vertex": v}, None))
+                    break
+            if not directed:
+                ge = {tuple(sorted(int(x) for x in e)) for e in np.asarray(g.edges).reshape(-1, 2).tolist()}
+                if ge != und or g.n_edges != len(und):
+                    bad.append((label + "edges / n_edges are not the lattice edges", {}, None))
+    # a depth image gives the same lattice on 3-D points (row, column, depth)
+    depth = np.arange(n, dtype=float).reshape(1, h, w) * 0.5 + 1.0
+    for cls in (ms.PointUndirectedGraph, ms.PointDirectedGraph):
+        label = "%s.init_from_depth_image(%r): " % (cls.__name__, (h, w))
+        try:
+            g = cls.init_from_depth_image(Image(depth.copy()))
+            A = np.asarray(g.adjacency_matrix.todense()) != 0
+        except Exception as e:
+            bad.append((label + "raised %s" % type(e).__name__, {"msg": str(e)[:100]}, None))
+            continue
+        P3 = np.array([[co[v][0], co[v][1], depth[0, co[v][0], co[v][1]]] for v in range(n)], dtype=float)
+        got = {(int(i), int(j)) for i, j in zip(*np.nonzero(A))}
+        want = {(a, b) for a, b in und} | {(b, a) for a, b in und}
+        if g.points.shape != P3.shape or not np.array_equal(g.points, P3) or got != want:
+            bad.append((label + "is not the lattice over (row, column, depth) points", {}, None))
+    return bad
+
+
+CHECKS = {"ug": check_ug, "dg": check_dg, "tree": check_tree, "grid": check_grid}
 
 
 def run_case(o):
